@@ -36,27 +36,32 @@ result is a Rust `String`, i.e. UTF-8 -/
 def cleanText (cs : List Nat) : Bytes :=
   utf8Encode (trimNul ((colourFilter 0 cs).filter (fun c => !isCtl c)))
 
+/-- the optional stray `0x01` after a UCS-2 length byte: `data[start ..].first() == Some(&1)` -/
+def strayOf (body : Bytes) : Nat := if body.head? == some 1 then 1 else 0
+
+/-- the UCS-2 branch on the bytes after the length byte and the stray byte: `length` bytes of
+UTF-16LE; ill-formed UTF-16 (`had_errors`) is `PacketBad` -/
+def ucs2Part (length stray : Nat) (body : Bytes) : Res (Bytes × Nat) :=
+  if body.length < length then .err .packetBad
+  else
+    match utf16Decode (unitsOf .little (body.take length)) with
+    | none => .err .packetBad
+    | some cs => .ok (cleanText cs, 1 + stray + length)
+
+/-- the Latin-1 branch on the bytes after the length byte (windows-1252 as encoding_rs decodes it:
+never an error) -/
+def latin1Part (length : Nat) (body : Bytes) : Res (Bytes × Nat) :=
+  if body.length < length then .err .packetBad
+  else .ok (cleanText (cp1252Decode (body.take length)), 1 + length)
+
 /-- `decode_string(data, cursor, _)`: the text and `start + length`, the bytes consumed.
 `data.get(a .. b)` is `none` (→ `PacketBad`) exactly when `b > data.len()`. -/
 def u2Dec (sl : Bytes) : Res (Bytes × Nat) :=
   match sl with
   | [] => .err .packetBad
   | l :: body =>
-    if l.toNat ≥ 0x80 then
-      -- UCS-2: `(length & 0x7f)` code units, an optional stray 0x01 first
-      let length := (l.toNat % 0x80) * 2
-      let stray := if body.head? == some 1 then 1 else 0
-      let body' := body.drop stray
-      if body'.length < length then .err .packetBad
-      else
-        match utf16Decode (unitsOf .little (body'.take length)) with
-        | none => .err .packetBad
-        | some cs => .ok (cleanText cs, 1 + stray + length)
-    else
-      -- Latin-1 (windows-1252 as encoding_rs decodes it: never an error)
-      let length := l.toNat
-      if body.length < length then .err .packetBad
-      else .ok (cleanText (cp1252Decode (body.take length)), 1 + length)
+    if l.toNat ≥ 0x80 then ucs2Part ((l.toNat % 0x80) * 2) (strayOf body) (body.drop (strayOf body))
+    else latin1Part l.toNat body
 
 /-- `buffer.read_string::<Unreal2StringDecoder>(None)` -/
 def readU2Str : Par Bytes := readStringWith u2Dec
